@@ -161,8 +161,27 @@ func (f *Frame) shadowFact(st *State, callee *ssa.Function, args []Val, res []Va
 			return
 		}
 	}
-	u := ufResult(f, fmt.Sprintf("pure|%s|%d", fnDisplayName(callee), 0), args, res[0].T)
+	u := ufResult(f, fmt.Sprintf("pure|%s|%d", fnDisplayName(callee), 0), shadowArgs(callee, args), res[0].T)
 	f.vc.fact(Imp(st.reach, Eq(u.one(), res[0].one())))
+}
+
+// shadowArgs: the arguments the shadow function of fn depends on. A receiver
+// the body never mentions is dropped, so that contracts can write T.m(nil, x).
+func shadowArgs(fn *ssa.Function, args []Val) []Val {
+	if fn.Signature.Recv() != nil && len(fn.Params) == len(args) && len(args) > 0 {
+		if refs := fn.Params[0].Referrers(); refs != nil {
+			used := false
+			for _, r := range *refs {
+				if _, isDbg := r.(*ssa.DebugRef); !isDbg {
+					used = true
+				}
+			}
+			if !used {
+				return args[1:]
+			}
+		}
+	}
+	return args
 }
 
 // stateIndependent: the body reads and writes no memory and calls nothing
